@@ -307,6 +307,16 @@ func hasPrefix(s, p string) bool {
 //go:norace
 func (s *Sched) runnable(t *Task) int {
 	s.settle()
+	// A task that has come back from a blocking operation holding a lock of
+	// the code under test (sync.Cond.Wait returns with its mutex locked) goes
+	// first: while it waits for the baton nobody else could take that lock.
+	for i := 0; i < s.n; i++ {
+		u := s.tasks[i]
+		if u != t && !u.done && atomic.LoadInt32(&u.state) == stArrived && s.held[u.ID] > 0 {
+			s.cand[0] = u.ID
+			return 1
+		}
+	}
 	for {
 		k := 0
 		if t != nil && !t.done && t.state == stRunnable && t.wakeAt <= s.now {
